@@ -40,7 +40,9 @@ Record tlsconf := { tc_extra_ca : option string (* RootCAs = system roots + this
 Definition trusts (t : tlsconf) (ca : string) : bool :=
   tc_insecure t || match tc_extra_ca t with Some pem => String.eqb pem ca | None => false end.
 
-Record watcher := { w_file : string; w_interval : Z; w_target : nat (* index of the pooled object it updates *); w_data : string; w_alive : bool }.
+(* a watcher is registered under (pool id of the settings, path) - the path is part of the pool id - and its callback
+   is updateCA(pool id, new content), which looks the pooled object up when it fires *)
+Record watcher := { w_id : bool * string * string * string; w_file : string; w_interval : Z; w_data : string; w_alive : bool }.
 
 Record pstate := {
   objs : list tlsconf;                                        (* every tls.Config ever built, by index (object identity) *)
@@ -68,10 +70,12 @@ Fixpoint set_nth_conf (n : nat) (v : tlsconf) (l : list tlsconf) : list tlsconf 
 Section Pool.
   Variable pem_ok : string -> bool.      (* x509.CertPool.AppendCertsFromPEM accepts it (oracle) *)
 
-  (* FileWatcher.WatchFile: any watcher of the same path is cancelled first - even when the new registration does not
-     start one (interval <= 0) or the read fails *)
-  Definition cancel_watchers (path : string) (ws : list watcher) : list watcher :=
-    map (fun w => if String.eqb (w_file w) path then {| w_file := w_file w; w_interval := w_interval w; w_target := w_target w; w_data := w_data w; w_alive := false |} else w) ws.
+  (* FileWatcher.WatchFile: any watcher registered under the same reader id is cancelled first - even when the new
+     registration does not start one (interval <= 0) or the read fails.  The reader id is (pool id, path) since fix
+     a TLS configuration per watcher; before it was the path alone, so that different settings watching one file
+     stopped each other's watchers *)
+  Definition cancel_watchers (id : bool * string * string * string) (ws : list watcher) : list watcher :=
+    map (fun w => if id_eqb (w_id w) id then {| w_id := w_id w; w_file := w_file w; w_interval := w_interval w; w_data := w_data w; w_alive := false |} else w) ws.
 
   Definition load (st : pstate) (s : settings) : pstate * lres :=
     if String.eqb (ts_ca s) "" && String.eqb (ts_file s) "" && (match ts_skip s with None => true | Some _ => false end) then (st, LNil)
@@ -87,12 +91,12 @@ Section Pool.
                      watchers := watchers st; files := files st |}, LObj new_index)
             else (st, LErr)
           else if negb (String.eqb (ts_file s) "") then
-            let ws := cancel_watchers (ts_file s) (watchers st) in
+            let ws := cancel_watchers id (watchers st) in
             match lookup (ts_file s) (files st) with
             | None => ({| objs := objs st; pool := pool st; watchers := ws; files := files st |}, LErr)
             | Some data =>
                 let ws' := if (0 <? ts_interval s)%Z
-                           then (ws ++ [{| w_file := ts_file s; w_interval := ts_interval s; w_target := new_index; w_data := data; w_alive := true |}])%list
+                           then (ws ++ [{| w_id := id; w_file := ts_file s; w_interval := ts_interval s; w_data := data; w_alive := true |}])%list
                            else ws in
                 if String.eqb data "" then
                   ({| objs := objs st ++ [{| tc_extra_ca := None; tc_insecure := false |}]; pool := (id, new_index) :: pool st; watchers := ws'; files := files st |}, LObj new_index)
@@ -111,26 +115,31 @@ Section Pool.
 
   (* every live watcher's ticker fires once (the model is driven at multiples of the intervals): re-read, and on a
      change update the pooled object it was registered for (updateCA), provided the PEM loads *)
-  Definition tick_one (fs : list (string * string)) (os : list tlsconf) (w : watcher) : list tlsconf * watcher :=
+  Definition tick_one (pl : list ((bool * string * string * string) * nat)) (fs : list (string * string)) (os : list tlsconf) (w : watcher) : list tlsconf * watcher :=
     if w_alive w then
       match lookup (w_file w) fs with
       | None => (os, w)
       | Some data =>
           if String.eqb data (w_data w) then (os, w)
           else
-            let w' := {| w_file := w_file w; w_interval := w_interval w; w_target := w_target w; w_data := data; w_alive := true |} in
-            match nth_error os (w_target w) with
-            | Some old => if pem_ok data then (set_nth_conf (w_target w) {| tc_extra_ca := Some data; tc_insecure := tc_insecure old |} os, w') else (os, w')
+            let w' := {| w_id := w_id w; w_file := w_file w; w_interval := w_interval w; w_data := data; w_alive := true |} in
+            (* updateCA(id, data): "config not found" when the load that registered the watcher failed *)
+            match pool_lookup (w_id w) pl with
+            | Some k =>
+                match nth_error os k with
+                | Some old => if pem_ok data then (set_nth_conf k {| tc_extra_ca := Some data; tc_insecure := tc_insecure old |} os, w') else (os, w')
+                | None => (os, w')
+                end
             | None => (os, w')
             end
       end
     else (os, w).
-  Fixpoint tick_all (fs : list (string * string)) (os : list tlsconf) (ws : list watcher) : list tlsconf * list watcher :=
+  Fixpoint tick_all (pl : list ((bool * string * string * string) * nat)) (fs : list (string * string)) (os : list tlsconf) (ws : list watcher) : list tlsconf * list watcher :=
     match ws with
     | [] => (os, [])
-    | w :: ws' => let '(os1, w1) := tick_one fs os w in let '(os2, ws2) := tick_all fs os1 ws' in (os2, w1 :: ws2)
+    | w :: ws' => let '(os1, w1) := tick_one pl fs os w in let '(os2, ws2) := tick_all pl fs os1 ws' in (os2, w1 :: ws2)
     end.
   Definition tick (st : pstate) : pstate :=
-    let '(os, ws) := tick_all (files st) (objs st) (watchers st) in
+    let '(os, ws) := tick_all (pool st) (files st) (objs st) (watchers st) in
     {| objs := os; pool := pool st; watchers := ws; files := files st |}.
 End Pool.
